@@ -302,3 +302,50 @@ Section FixedProofs.
       now destruct (error_on_unknown cfg).
   Qed.
 End FixedProofs.
+
+(** * The loop over the keys of one call *)
+Section AllProofs.
+  Variable wat_parse : content -> option content.
+  Variable wit_dir_encode : content -> option content.
+  Variable wit_file_encode : content -> option content.
+
+  Notation resolve_one_fixed := (resolve_one_fixed wat_parse wit_dir_encode wit_file_encode).
+  Notation resolve_all := (resolve_all wat_parse wit_dir_encode wit_file_encode).
+
+  (** When no key fails, the call answers every key exactly as it would answer it alone. *)
+  Lemma resolve_all_independent wat fs cfg ks :
+    forallb (fun k => negb (is_failure (resolve_one_fixed wat fs cfg k))) ks = true ->
+    resolve_all wat fs cfg ks = map (resolve_one_fixed wat fs cfg) ks.
+  Proof.
+    induction ks as [|k r IH]; cbn [forallb FsResolve.resolve_all map]; intros H; [reflexivity|].
+    apply andb_prop in H. destruct H as [Hk Hr].
+    destruct (is_failure (resolve_one_fixed wat fs cfg k)); [discriminate|]. now rewrite (IH Hr).
+  Qed.
+
+  (** When some key fails, the call stops at the FIRST such key: the keys before it are answered as if alone, and the
+      error is that key's own error. *)
+  Lemma resolve_all_first_failure wat fs cfg pre k post :
+    forallb (fun k => negb (is_failure (resolve_one_fixed wat fs cfg k))) pre = true ->
+    is_failure (resolve_one_fixed wat fs cfg k) = true ->
+    resolve_all wat fs cfg (pre ++ k :: post) =
+    map (resolve_one_fixed wat fs cfg) pre ++ [resolve_one_fixed wat fs cfg k].
+  Proof.
+    induction pre as [|p r IH]; cbn [forallb FsResolve.resolve_all map app]; intros H Hk.
+    - now rewrite Hk.
+    - apply andb_prop in H. destruct H as [Hp Hr].
+      destruct (is_failure (resolve_one_fixed wat fs cfg p)); [discriminate|]. now rewrite (IH Hr Hk).
+  Qed.
+
+  (** The answer for a key does not depend on which other keys are requested with it, nor on their order, as long
+      as the call gets to it: an outcome in the answer is the stand-alone outcome of the key at that position. *)
+  Lemma resolve_all_nth wat fs cfg ks i o :
+    nth_error (resolve_all wat fs cfg ks) i = Some o ->
+    exists k, nth_error ks i = Some k /\ o = resolve_one_fixed wat fs cfg k.
+  Proof.
+    revert i. induction ks as [|k r IH]; intros i H; cbn [FsResolve.resolve_all] in H.
+    - destruct i; discriminate.
+    - destruct (is_failure (resolve_one_fixed wat fs cfg k)).
+      + destruct i as [|i]; cbn in H; [injection H as <-; exists k; now split|]. destruct i; discriminate.
+      + destruct i as [|i]; cbn in H; [injection H as <-; exists k; now split|]. now apply IH.
+  Qed.
+End AllProofs.
